@@ -23,14 +23,19 @@ type Config struct {
 	Versions  []int    // request versions (indexes into Versions)
 	// RFX enables the file-segment family of ReadFrom (OpRFX): limit N in {0, 1, what is left of the
 	// file, that + 1, more than the whole file} x file offset {0, middle, end of file} x connection
-	// kind. RFXEverywhere offers the whole family in every state and expands every state it
-	// reaches; otherwise it is offered where a positive Content-Length is declared (the one
-	// situation in which the response writer may hand the file to the connection's Sendfile), only
-	// the empty segment (on a connection with Sendfile) elsewhere, and a state whose body is not
-	// the pattern's prefix any more (a displaced segment) is only completed: the rest of the
-	// declared length, a Flush.
-	RFX           bool
-	RFXEverywhere bool
+	// kind. The whole family is offered where a positive Content-Length is declared (the one
+	// situation in which the response writer may hand the file to the connection's Sendfile);
+	// elsewhere - every segment then goes through io.Copy and Write - a reduced one.
+	//   RFXWide false (quick): on a connection without Sendfile only {nothing, one byte, a limit
+	//   beyond the end of the file, limit 1 at the end of the file}; where no Content-Length is
+	//   declared only the empty segment and "limit 1 at the end of the file", on a connection with
+	//   Sendfile; a state whose body is not the pattern's prefix any more (a displaced segment) is
+	//   only completed: the rest of the declared length, a Flush.
+	//   RFXWide true (thorough): the whole family on every connection kind where a Content-Length
+	//   is declared; {0, 1, beyond the end} at the middle and limit 1 at the end of the file, on every
+	//   connection kind, elsewhere; displaced states are expanded like any other.
+	RFX     bool
+	RFXWide bool
 	// Pipeline: programs that read from a file are followed, on the keep-alive request versions, by
 	// a second request on the same connection (Program.Next).
 	Pipeline bool
@@ -42,8 +47,8 @@ type Config struct {
 
 // WithFileSegments turns on the OpRFX family, the pipelined follow-up request and the finer state
 // key (the C09 space; C11 keeps the plain alphabet).
-func (c Config) WithFileSegments(everywhere bool) Config {
-	c.RFX, c.RFXEverywhere, c.Pipeline, c.KeyConn = true, everywhere, true, everywhere
+func (c Config) WithFileSegments(wide bool) Config {
+	c.RFX, c.RFXWide, c.Pipeline, c.KeyConn = true, wide, true, wide
 	if !contains(c.CLFixed, 1) {
 		// so that a one-byte segment can be all a response declares
 		c.CLFixed = append([]int{1}, c.CLFixed...)
@@ -300,7 +305,7 @@ func (x *Explorer) successors(n *Node) []succ {
 	fits := func(sz int) bool { return rem < 0 || sz <= rem }
 	no204 := func() bool { return m.Status != 204 && m.StatusAlt != 204 }
 
-	if cfg.RFX && !cfg.RFXEverywhere && !m.Aligned() {
+	if cfg.RFX && !cfg.RFXWide && !m.Aligned() {
 		if rem > 0 && no204() && m.Body+rem <= PatLen {
 			add(Op{K: OpW, N: rem, Sym: "fill"})
 		}
@@ -412,7 +417,7 @@ func (x *Explorer) successors(n *Node) []succ {
 		}
 		if cfg.RFX {
 			for _, k := range kinds {
-				if !cfg.RFXEverywhere && m.DeclaredCL() <= 0 && k != ConnSendfile && len(kinds) > 1 {
+				if !cfg.RFXWide && m.DeclaredCL() <= 0 && k != ConnSendfile && len(kinds) > 1 {
 					continue // the empty segment: once
 				}
 				for _, op := range x.segments(m, fits, k == ConnSendfile) {
@@ -443,11 +448,20 @@ func (x *Explorer) segments(m *Model, fits func(int) bool, sendfile bool) []Op {
 		seen[[2]int{n, off}] = true
 		out = append(out, op)
 	}
-	if !x.Cfg.RFXEverywhere && m.DeclaredCL() <= 0 {
+	if m.DeclaredCL() <= 0 {
 		add(0, mid, "0@"+midName)
+		if x.Cfg.RFXWide {
+			add(1, mid, "1@"+midName)
+			add(FileLen-mid+1, mid, "left+1@"+midName)
+		}
+		if sendfile || x.Cfg.RFXWide {
+			// nothing to read, but a limit > 0: nbio looks at the response (status, framing decision)
+			// before it finds that the sendfile path does not apply
+			add(1, FileLen, "1@eof")
+		}
 		return out
 	}
-	if !x.Cfg.RFXEverywhere && !sendfile {
+	if !x.Cfg.RFXWide && !sendfile {
 		// a connection without Sendfile: every segment goes through io.Copy and Write, where only
 		// the number of bytes matters: nothing, one byte, a limit beyond the end of the file
 		left := FileLen - mid
